@@ -52,7 +52,10 @@ pub fn replay_anim_line(tally: &mut Tally, lineno: usize, line: &Value, scales: 
     for v in line["v0"].as_array().unwrap() { maxabs = maxabs.max(v.as_i64().unwrap().abs() as f64); }
     for comps in line["tls"].as_array().unwrap() { for c in comps.as_array().unwrap() { for kf in c["kfs"].as_array().unwrap() { for d in kf["d"].as_array().unwrap() {
         if let Some(v) = d.as_array().unwrap().first() { maxabs = maxabs.max(v.as_i64().unwrap().abs() as f64); } } } } }
-    let big = (2.0f64).powi((3.0e38f64 / maxabs).log2().floor() as i32) as f32;
+    let mut over = false;
+    for comps in line["tls"].as_array().unwrap() { for c in comps.as_array().unwrap() {
+        over |= overshoots(c["de"].as_i64().unwrap()) || c["kfs"].as_array().unwrap().iter().any(|k| overshoots(k["e"].as_i64().unwrap())); } }
+    let big = extreme_scale(maxabs, over);
     let mut passes: Vec<(i64, f32)> = scales.iter().map(|&s| (s, 1.0f32)).collect();
     passes.push((scales[0], big));
     for &(s, vs) in &passes {
